@@ -840,6 +840,8 @@ fire('c19-is-admin-dropped', 'C19',
      [(SH, "    access_data['is_admin'] = is_admin\n", "    access_data['is_admin'] = False\n")], 'C19.CREDS')
 fire('c19-eval-guard-narrowed', 'C19',
      [(SH, "    except Exception as e:\n        print(e)", "    except (KeyError, ValueError) as e:\n        print(e)")], 'C19.EVERY')
+fire('c18-upgrade-alias-moved', 'C18',
+     [(GEN, "                if _is_alias_of(old_value, rule_default.name):\n", "                if False:\n")], 'C18.UPGRADE')
 # ------------------------------------------------------------------ C20
 fire('c20-clear-then-update', 'C20',
      [(POL, "        if overwrite:\n            self.rules = Rules(rules, self.default_rule)\n        else:",
@@ -1134,8 +1136,8 @@ fire('c18-revert-f6-extra', 'C18',
      [(GEN, "        rule_text = ('\"%(name)s\": %(check_str)s\\n' %\n                     {'name': file_rule,\n                      'check_str': _quote_check_str(check_str)})",
        "        rule_text = ('\"%(name)s\": \"%(check_str)s\"\\n' %\n                     {'name': file_rule,\n                      'check_str': check_str})")], 'C18.QUOTED-HOLE')
 fire('c18-revert-f7', 'C18',
-     [(GEN, "                policies.pop(rule_default.deprecated_rule.name, None)\n                policies[rule_default.name] = old_policies[\n                    rule_default.deprecated_rule.name]",
-       "                policies[rule_default.name] = policies.pop(\n                    rule_default.deprecated_rule.name)")], 'C18.POP-GUARD')
+     [(GEN, "                policies.pop(rule_default.deprecated_rule.name, None)\n                old_value = old_policies[rule_default.deprecated_rule.name]",
+       "                old_value = policies.pop(\n                    rule_default.deprecated_rule.name)")], 'C18.POP-GUARD')
 fire('c18-convert-override-commented', 'C18',
      [(GEN, "                rule_text = _format_rule_default_yaml(\n                    file_rule, comment_rule=False,\n                    add_deprecated_rules=False)",
        "                rule_text = _format_rule_default_yaml(\n                    file_rule, comment_rule=True,\n                    add_deprecated_rules=False)")], 'C18.KEEP-OVERRIDE')
